@@ -82,10 +82,11 @@ def mach_number(tas, t):
 
 
 # --------------------------------------------------------------------------- FFM2 Eq. 40
-def ffm2_sls_fuel_flow(wf_alt_total, p_amb, t_amb, mach, n_eng=2, z=3.8):
-    """Sea-level-static equivalent fuel flow per engine: Wf_SL = Wf_alt * theta^z / delta * e^(0.2 M^2)."""
-    theta = t_amb / 288.15
-    delta = p_amb / 101325.0
+def ffm2_sls_fuel_flow(wf_alt_total, p_amb, t_amb, mach, n_eng=2, z=3.8, p_sl=101325.0, t_sl=288.15):
+    """Sea-level-static equivalent fuel flow per engine (Eq. 40):
+    Wf_SL = Wf_alt * theta^z / delta * e^(0.2 M^2), theta = T_amb/T_SL, delta = P_amb/P_SL."""
+    theta = t_amb / t_sl
+    delta = p_amb / p_sl
     per_engine = wf_alt_total / n_eng
     return per_engine * math.pow(theta, z) * math.exp(0.2 * mach * mach) / delta
 
